@@ -52,7 +52,7 @@ ssize_t read_data(zckCtx *zck, char *data, size_t length) {
 }
 
 int write_data(zckCtx *zck, int fd, const char *data, size_t length) {
-    VALIDATE_INT(zck);
+    VALIDATE_BOOL(zck);
 
     if(length == 0)
         return true;
@@ -80,7 +80,7 @@ int write_data(zckCtx *zck, int fd, const char *data, size_t length) {
 }
 
 int seek_data(zckCtx *zck, off_t offset, int whence) {
-    VALIDATE_INT(zck);
+    VALIDATE_BOOL(zck);
 
     if(lseek(zck->fd, offset, whence) == -1) {
         char *wh_str = NULL;
